@@ -206,7 +206,7 @@ func main() {
 			if t == "thorough" {
 				return 150000
 			}
-			return 6000
+			return 12000
 		},
 		Floor: func(t string) int {
 			if t == "thorough" {
